@@ -2230,7 +2230,13 @@ func builtinAppend(env *LEnv, args *LVal) *LVal {
 		// the result is unsealed storage this call owns, so chaining extends
 		// it as before.  Exactly one allocation on each arm -- the sealed
 		// copy is sized for the append rather than clamped and regrown.
-		if seq.sealed {
+		//
+		// The same gap exists for an UNSEALED input: with no values,
+		// append(clampCap(cells)) returns clampCap(cells) itself, so the
+		// result would be a second vector over seq's own cells and an
+		// in-place stable-sort of either would reorder the other.  Nothing to
+		// append is therefore copied outright as well.
+		if seq.sealed || len(vals) == 0 {
 			fresh := make([]*LVal, len(cells), len(cells)+len(vals))
 			copy(fresh, cells)
 			//elps:mutates appends into `fresh`, which this function allocated two lines above with capacity for exactly this append; the sealed input is only read
